@@ -322,7 +322,9 @@ def hDefaults (inp out : Json) : Except String Findings := do
   let fs := diff fs "isDefaulted" isDef (isDefaulted s tn)
   let fs := diff fs "isDefaultedPanic" isDefPanic false
   let fs := diff fs "validateRaw" vraw (validateStr (validateSpec s))
-  let fs := diff fs "defaultPanic" dpanic false
+  -- "an object recognised as defaulted" is what the reconcilers run on without defaulting it again:
+  -- whatever the recogniser accepts must have every pointer the reconcilers dereference
+  let fs := spec fs "C16.recognised-implies-filled" (!isDef || Spec.C16.fills s)
   if dpanic then return spec fs "C16.default-no-crash" false else
   let d : Strategy ← get out "defaulted"
   let dtn : String ← get out "defaultedTemplateName"
@@ -649,6 +651,16 @@ def hEdsReconcile (inp out : Json) : Except String Findings := do
                    | some c => c.status != "True" || now ≥ c.lastTransition + 2 * minute - 5 * sec
                    | none => true)
       | none => true))
+  -- C07 (theorem C07_spec_write_even_if_status_current): whatever the status already says, while the
+  -- up-to-date replica set is a failed canary and spec.template is not the active one's, a reconcile
+  -- that reaches the status computation restores the template
+  let fs := match d.strategy.canary, upToDateOf d own, lastWhere (fun e => e.name == d.status.activeReplicaSet) own with
+    | some _, some u, some a =>
+      if o.kind == "ok" && o.defaulted.isNone && o.created.isNone && isCanaryFailed (some u) &&
+         !isCanaryValid d.annotations u.name && a.templateGeneration != d.templateHash then
+        spec fs "C07.rollback-spec-restored" (o.specHash == some a.templateGeneration)
+      else fs
+    | _, _, _ => fs
   -- status function, when a status was written
   let fs := match o.statusUpdate, upToDateOf d own with
     | some st, some u =>
@@ -785,6 +797,12 @@ def hErsReconcile (inp out : Json) : Except String Findings := do
       match pods.find? (fun p => p.name == nm && p.ns == rs.ns) with
       | some p => SMap.get? p.labels K.ersNameLabel == some rs.name
       | none => false))
+  -- C07: the Canary-Failed mark is the only memory of the failure between the two writes of the
+  -- rollback and during the retention: a replica set that is neither active nor canary keeps it
+  let fs := spec fs "C07.failed-mark-kept" (!(role == "unknown" && isCondTrue rs.status.conds "Canary-Failed") ||
+      (match o.statusUpdate with
+       | some s => isCondTrue s.conds "Canary-Failed"
+       | none => true))
   -- C09: the gate and the stamp
   let gated := match findCond rs.status.conds "LastFullSync", d.strategy.reconcileFrequency with
     | some c, some f => isDefaulted d.strategy d.templateName && c.lastUpdate + f > now + sec
@@ -1042,7 +1060,7 @@ def underFault (inp : Json) (fsk : Findings) : Findings :=
   let crashed : Bool := (inp.getObjValAs? Bool "crashed").toOption.getD false
   if !faulted then fsk else
   fsk.filter (fun f =>
-    let completeness := (["SPEC C07.rollback-writes", "SPEC C14.", "SPEC C16.no-default-loop"].any (fun pre => f.startsWith pre))
+    let completeness := (["SPEC C07.rollback-writes", "SPEC C07.rollback-spec-restored", "SPEC C14.", "SPEC C16.no-default-loop"].any (fun pre => f.startsWith pre))
       || (crashed && f.startsWith "SPEC C09.stamp")
     !(f.startsWith "DIFF" || completeness))
 
